@@ -129,6 +129,41 @@ def _run_seed(args):
         shutil.rmtree(tmp, ignore_errors=True)
 
 
+def _patch_items():
+    """Behaviour-preserving refactoring patches written by independent engineers (refactors/<Cxx>/refactorN.diff)."""
+    root = os.path.join(os.path.dirname(os.path.dirname(os.path.abspath(__file__))), 'refactors')
+    out = []
+    if os.path.isdir(root):
+        for d in sorted(os.listdir(root)):
+            dd = os.path.join(root, d)
+            if os.path.isdir(dd):
+                out += [(f'{d}/{f}', os.path.join(dd, f)) for f in sorted(os.listdir(dd)) if f.endswith('.diff')]
+    return out
+
+
+def _run_patch(args):
+    """The property still holds on these patches: a VIOLATION is a false alarm of the checker; exit 2 is tolerated and counted."""
+    prop, repo, name, patch = args
+    import subprocess
+    from .main import run_property
+    tmp = tempfile.mkdtemp(prefix='gsa_rpatch_')
+    try:
+        copy_sources(repo, tmp)
+        r = subprocess.run(['git', 'apply', '--include', 'src/*', patch], cwd=tmp, capture_output=True, text=True)
+        name = f'refactor-patch:{name}'
+        if r.returncode != 0:
+            return dict(name=name, kind='E', status='skipped', detail='patch no longer applies to the current tree')
+        rep, undecided = run_property(prop, tmp, 'quick')
+        viol = [o for o in rep.obs if not o.ok]
+        if viol:
+            return dict(name=name, kind='E', status='false-alarm', detail='; '.join(f'{o.rule} {o.desc[:60]} found={str(o.found)[:50]}' for o in viol[:3]), rules=sorted({o.rule for o in viol}))
+        if undecided is not None:
+            return dict(name=name, kind='E', status='tolerated-undecided', detail=undecided, rules=[])
+        return dict(name=name, kind='E', status='silent', rules=[])
+    finally:
+        shutil.rmtree(tmp, ignore_errors=True)
+
+
 REFACTORINGS = ('flipcmp', 'ifswap', 'commute', 'kwrev', 'retvar', 'rename', 'notnot', 'augexpand', 'withsplit', 'kwargify')
 
 
@@ -179,11 +214,13 @@ def run_corpus(prop, repo, seed=0, jobs=None):
         import random
         random.Random(seed).shuffle(order)
     seeds = _seed_items(prop)
+    patches = _patch_items()
     with ProcessPoolExecutor(max_workers=16) as ex:
         f1 = ex.map(_run_one, [(prop, repo, i) for i in order])
         f2 = ex.map(_run_seed, [(prop, repo, n, pth) for (n, pth) in seeds])
         f3 = ex.map(_run_refactoring, [(prop, repo, t) for t in REFACTORINGS])
-        results = list(f1) + list(f2) + list(f3)
+        f4 = ex.map(_run_patch, [(prop, repo, n, pth) for (n, pth) in patches])
+        results = list(f1) + list(f2) + list(f3) + list(f4)
     nb = sum(1 for r in results if r['kind'] == 'B' and r['status'] != 'skipped')
     ne = sum(1 for r in results if r['kind'] == 'E' and r['status'] != 'skipped')
     killed = sum(1 for r in results if r['status'] == 'killed')
@@ -193,6 +230,7 @@ def run_corpus(prop, repo, seed=0, jobs=None):
               for r in results if r['status'] in ('missed', 'wrong-rule', 'false-alarm', 'undecided')]
     cov = dict(variants_breaking=nb, variants_equivalent=ne, variants_killed=killed, equivalents_silent=silent,
                variants_skipped=skipped, seeded_changes=len(seeds), refactorings=len(REFACTORINGS),
+               refactor_patches=len(patches), refactor_patches_undecided=[r['name'] for r in results if r['status'] == 'tolerated-undecided'],
                variant_results=[dict(name=r['name'], kind=r['kind'], status=r['status'], rules=r.get('rules', [])) for r in results])
     return dict(coverage=cov, broken=broken)
 
